@@ -75,7 +75,10 @@ def scenarios(layout):
     return s
 
 
-def make_case(rnd, idx, layout, scen, long_spans=False):
+OPTCOLS = ("verd", "sund", "et0")      # optional columns of the per-year layout, in the order of the harness' "opt" echo
+
+
+def make_case(rnd, idx, layout, scen, long_spans=False, variant=0):
     sy = rnd.choice([1951, 1963, 1979, 1983, 1991, 1995, 1999, 2003, 2007, 2011, 2019, 2023, 2047])
     if scen.startswith("complete") and rnd.random() < 0.5:
         sy = rnd.choice([1952, 1980, 1996, 2000, 2004, 2024])
@@ -104,6 +107,11 @@ def make_case(rnd, idx, layout, scen, long_spans=False):
         ann = D(end.year, 12, 31)
     eff = _ende_eff(end, ann)
     first = D(sy, 1, 1)
+    delta = 0
+    if scen == "startyear-mismatch":
+        # StartYear one or two years before / one year after the year of the first simulated day; the series covers the earlier years
+        delta = (-1, -2, 1)[variant % 3]
+        first = D(sy + min(delta, 0), 1, 1)
     if scen == "complete-early":
         first = D(sy - 1, rnd.randrange(1, 13), rnd.randrange(1, 28))
     last = D(eff.year, 12, 31)
@@ -142,6 +150,18 @@ def make_case(rnd, idx, layout, scen, long_spans=False):
                 wxlib.put_sentinel(ser, dd, col, none)
     if rnd.random() < 0.3:
         ser[0][1]["tavg"] = none
+    c["optcols"] = ()
+    if layout == 0:
+        # optional columns of the yearly files: values on (nearly) every day, the sentinel on the first/last record of a year file
+        # and on isolated days; whether a column "is there" is state of the reader that survives from year file to year file
+        c["optcols"] = tuple(k for k in OPTCOLS if rnd.random() < 0.8) or ("verd",)
+        for k in c["optcols"]:
+            forced = D(min(sy + 1, eff.year), 12, 31)
+            for d, r in ser:
+                r[k] = "%.2f" % (rnd.uniform(0.1, 14) if k == "verd" else rnd.uniform(0, 3) if k == "sund" else rnd.uniform(0.1, 6))
+                edge = (d.month, d.day) in ((12, 31), (1, 1))
+                if d == forced or (edge and rnd.random() < 0.5) or rnd.random() < 0.004:
+                    r[k] = none
     if scen == "rollovers-past-131":
         ser = [(d, r) for d, r in ser if d <= D(2012, 1, 8)]
     elif scen == "runaway-year-counter":
@@ -182,7 +202,7 @@ def make_case(rnd, idx, layout, scen, long_spans=False):
         ser = [(d, r) for d, r in ser if not (g0 <= d <= D(gy, 12, 31))]
         c["gapjan"] = g0
     elif scen == "startyear-mismatch":
-        c["anjahr"] = sy + rnd.choice([-1, 1])
+        c["anjahr"] = sy + delta
     elif scen == "preco":
         c["preco"] = ["%4.2f" % rnd.uniform(0.9, 1.3) for _ in range(12)]
     c["series"] = ser
@@ -196,7 +216,7 @@ def gen_cases(ctx):
     for rep in range(reps):
         for layout in (0, 1, 2):
             for scen in scenarios(layout):
-                cases.append(make_case(rnd, len(cases), layout, scen, ctx.thorough))
+                cases.append(make_case(rnd, len(cases), layout, scen, ctx.thorough, variant=layout + rep + ctx.seed))
     return cases
 
 
@@ -211,7 +231,7 @@ def _run(ctx):
     for c in cases:
         p = "q%03d" % c["idx"]
         ser = c["series"]
-        wcfg = wxlib.write_weather(root, p, c["layout"], "F" + p, ser, skip_years=c["skip_years"], windhi=c.get("windhi"), order=c.get("order"))
+        wcfg = wxlib.write_weather(root, p, c["layout"], "F" + p, ser, skip_years=c["skip_years"], windhi=c.get("windhi"), order=c.get("order"), none=c["none"])
         cfg = dict(wcfg, WeatherFolder=p, WeatherNoneValue=c["none"], StartYear=c["anjahr"], EndDate=de(c["end"]),
                    AnnualOutputDate="%02d%02d" % (c["ann"].day, c["ann"].month), OutputIntervall=0,
                    ETpot=c["etpot"])
@@ -396,6 +416,20 @@ def _expect(cs, inp, z):
     return [tav, f("tmin"), f("tmax"), f("rh"), rad, max(w, 0.5), prec]
 
 
+def _expect_opt(cs, inp, z, name):
+    none = float(cs["none"])
+    v = float(inp[z][name])
+    if v != none:
+        return v
+    if name == "et0":
+        return None          # replaceMissingValues has no clause for the reference evapotranspiration: see observed_et0_sentinel below
+    a, b = inp.get(z - ONE), inp.get(z + ONE)
+    if a is None or b is None or not ((z - ONE).year == z.year == (z + ONE).year):
+        return None
+    fa, fb = float(a[name]), float(b[name])
+    return (fa + fb) / 2 if fa != none and fb != none else None
+
+
 def _problem(cs, beginn, eff):
     """first simulated date at which the input is deficient (not covered / gap / missing year file / year file not
     starting at day 1), with the failure mode; None when every simulated day is covered"""
@@ -445,17 +479,20 @@ def oracle(ctx, search):
         fails.append(Fail(key="harness-crash", what="the simulator aborted (log.Fatal/panic) on a generated weather input",
                           stderr=err[-800:], completed_runs=len(runs)))
         return fails
-    checked = 0
+    checked = nopt = net0 = 0
+    et0_example = None
     for cs, run in zip(cases, runs):
         beginn, eff = cs["start"], cs["eff"]
-        if cs["anjahr"] != beginn.year:
-            continue                       # inconsistent configuration: the property does not speak about it
         p, mode, inp = _problem(cs, beginn, eff)
         desc = _describe(cs)
         days = run.get("days") or []
         echo = run.get("echo") or []
+        optv = run.get("opt") or []
+        mismatch = cs["anjahr"] != beginn.year
+        # StartYear differing from the year of the first simulated day: the run has to end with the start-year error or, if it
+        # runs, every day has to be driven by the record of its own date like in any other run
         if not run["success"]:
-            if p is None:
+            if p is None and not mismatch:
                 fails.append(Fail(key="unexpected-run-error:layout%d:%s" % (cs["layout"], cs["scen"]),
                                   what="run ended with an error although the weather input covers every simulated day",
                                   error=run["err"], case=desc))
@@ -484,7 +521,29 @@ def oracle(ctx, search):
                     break
             if bad:
                 break
+            # optional columns of the per-year layout as Evatra gets them (the value of that date, the mean of the neighbours
+            # for an isolated sentinel inside the file; first/last record and sentinel neighbours: not fixed)
+            for j, name in enumerate(OPTCOLS):
+                if name not in cs["optcols"] or k >= len(optv):
+                    continue
+                wv = _expect_opt(cs, inp, z, name)
+                if name == "et0" and float(inp[z]["et0"]) == float(cs["none"]) and float.fromhex(optv[k][j]) == float(cs["none"]):
+                    net0 += 1
+                    et0_example = et0_example or "%s: %s" % (z, desc)
+                if wv is not None:
+                    nopt += 1
+                    gv = float.fromhex(optv[k][j])
+                    if gv != wv:
+                        bad = (z, "optional column %s: consumed %r, record of that date normalised = %r" % (name, gv, wv))
+                        break
+            if bad:
+                break
             checked += 1
+        if bad and mismatch:
+            fails.append(Fail(key="startyear-mismatch-not-reported:layout%d" % cs["layout"],
+                              what="StartYear %d, first simulated day %s: the run reports success, and day %s is not driven by the weather "
+                                   "record of that date: %s" % ((cs["anjahr"], beginn) + bad), case=desc))
+            continue
         if bad:
             fails.append(Fail(key="misaligned:layout%d:%s:%s" % (cs["layout"], cs["scen"], bad[0]),
                               what="day %s is not driven by the weather record of that date: %s" % bad, case=desc))
@@ -497,6 +556,12 @@ def oracle(ctx, search):
             fails.append(Fail(key="day-count:layout%d:%s" % (cs["layout"], cs["scen"]),
                               what="%d simulated days, expected %d" % (len(days), want_days), case=desc))
     ctx.extra["oracle_days_checked"] = checked
+    ctx.extra["oracle_optional_column_values_checked"] = nopt
+    ctx.extra["observed_et0_sentinel"] = {
+        "what": "per-year layout, ET0 column present: a day carrying the sentinel in the ET0 column reaches Evatra with the sentinel as its value "
+                "(replaceMissingValues fills TMP, VERD, SUND, RADI, REG only; ETpot=5 would turn it into a negative potential evapotranspiration); "
+                "reported to the lead as a candidate finding, no alarm here",
+        "days_this_run": net0, "example": et0_example}
     # ---- character level, the property's domain: well-formed files are read back value for value
     tcases, tres, restarts = _run_tok(ctx)
     badwf, nwf = toklib.oracle_wellformed(tcases, tres)
